@@ -153,7 +153,24 @@ fn main() {
         }
         "C04" => {
             use skv_verif::engine_sched::{sched_prop, Flavor};
-            run_model(vec![(sched_prop("C04", Flavor::C04), 2500, 50000)], tier, replay)
+            let findings = Findings::load();
+            let main = sched_prop("C04", Flavor::C04);
+            let orc = skv_verif::engine_oracle::c04_oracle();
+            if let Some(p) = replay {
+                let text = std::fs::read_to_string(&p).unwrap_or_default();
+                if text.contains("\"ops\"") && !text.contains("\"actors\"") {
+                    std::process::exit(replay_one(&orc, &p, &findings));
+                }
+                std::process::exit(replay_one(&main, &p, &findings));
+            }
+            let seed = seed_from_env();
+            let t0 = Instant::now();
+            let mut rep = Report::default();
+            run_replays(&main, &findings, &mut rep);
+            rep.merge(run_prop(&main, cases_for(tier, 2500, 50000), seed, 0, &findings));
+            rep.merge(run_prop(&orc, cases_for(tier, 40000, 800000), seed, 1, &findings));
+            let rule = format!("{} || SECOND STREAM ({})", main.rule, orc.rule);
+            finish(main.id, main.level, tier, seed, &rule, &main.assumptions, &rep, t0.elapsed().as_secs_f64(), &findings)
         }
         "C05" => {
             use skv_verif::engine_sched::{sched_prop, Flavor};
